@@ -6,7 +6,12 @@ A case (JSON) is
   {"pool": [mmcfg…], "extras": [mmcfg…], "files": {name: text}, "histories": [[op…]…]}
   mmcfg = {"grammar": str, "opts": {...metamodel_from_str keyword options...},
            "classes": {rule: variant}, "objprocs": {rule: variant}, "modelprocs": [variant…],
-           "scope": None | "plain_instances" | "plain_importuri" | "fqn_importuri" | "fqn", "params": [name…]}
+           "scope": None | "plain_instances" | "plain_importuri" | "fqn_importuri" | "fqn", "params": [name…],
+           "search_path": [dir…] (relative to the scratch directory; the import scope provider is created with it),
+           "sp_share": key (providers of metamodels with the same key are given the *same* list object),
+           "gfiles": {path: text}, "gmain": path (the grammar is written to these files — overwriting what
+           another metamodel of the case wrote there — and compiled with metamodel_from_file)}
+  files may live in sub-directories ("m1/pa/main.ent")
   op    = ["str", k, text] | ["strp", k, text, {param: value}] | ["file", k, name] | ["new", k]
           k = metamodel slot: pool entries first, then the extras; an extra exists in a history only
           after its ["new", k]
@@ -50,6 +55,8 @@ class World:
         self.mm_errs = []
         self.classes = []      # per metamodel: {rule: class}
         self.cfgs = []
+        self.shared = {}       # sp_share key -> the list object handed to several providers
+        self.fp_seen = {}      # slot -> last fingerprint digest reported in full
 
 
 def short(v):
@@ -139,19 +146,39 @@ def build_mm(world, cfg):
     classes = {r: mk_class(r, v, world.log) for r, v in sorted((cfg.get("classes") or {}).items())}
     opts = dict(cfg.get("opts") or {})
     try:
-        mm = textx.metamodel_from_str(cfg["grammar"], classes=list(classes.values()), **opts)
+        if cfg.get("gfiles"):
+            # the grammar lives in files: (re)write them — another metamodel of the case may have written
+            # other content to the same paths before — and compile from the file
+            for fn, text in sorted(cfg["gfiles"].items()):
+                path = os.path.join(world.tmp, fn)
+                os.makedirs(os.path.dirname(path), exist_ok=True)
+                with open(path, "w") as f:
+                    f.write(text)
+            mm = textx.metamodel_from_file(os.path.join(world.tmp, cfg["gmain"]), classes=list(classes.values()), **opts)
+        else:
+            mm = textx.metamodel_from_str(cfg["grammar"], classes=list(classes.values()), **opts)
         procs = {r: mk_objproc(r, v, world.log) for r, v in sorted((cfg.get("objprocs") or {}).items())}
         if procs:
             mm.register_obj_processors(procs)
         for v in cfg.get("modelprocs") or []:
             mm.register_model_processor(mk_modelproc(v, world.log))
         scope = cfg.get("scope")
+        spkw = {}
+        if cfg.get("search_path") is not None:
+            key = cfg.get("sp_share")
+            if key is not None and key in world.shared:
+                lst = world.shared[key]
+            else:
+                lst = [os.path.join(world.tmp, d) for d in cfg["search_path"]]
+                if key is not None:
+                    world.shared[key] = lst
+            spkw = {"search_path": lst}
         if scope == "plain_instances":
             mm.register_scope_providers({"*.*": sp.PlainName(multi_metamodel_support=False)})
         elif scope == "plain_importuri":
-            mm.register_scope_providers({"*.*": sp.PlainNameImportURI()})
+            mm.register_scope_providers({"*.*": sp.PlainNameImportURI(**spkw)})
         elif scope == "fqn_importuri":
-            mm.register_scope_providers({"*.*": sp.FQNImportURI()})
+            mm.register_scope_providers({"*.*": sp.FQNImportURI(**spkw)})
         elif scope == "fqn":
             mm.register_scope_providers({"*.*": sp.FQN()})
         for p in cfg.get("params") or []:
@@ -171,6 +198,18 @@ def norm_text(s, tmp):
     return HEX.sub("0x", s)[:MAXMSG]
 
 
+def rel_name(fn, tmp):
+    """file name relative to the scratch directory (base name for anything outside it)"""
+    if fn is None:
+        return None
+    fn = str(fn)
+    if tmp:
+        a = os.path.abspath(fn)
+        if a.startswith(tmp.rstrip("/") + "/"):
+            return os.path.relpath(a, tmp)
+    return os.path.basename(fn)
+
+
 def exc_view(e, tmp):
     from textx.exceptions import TextXError
 
@@ -178,7 +217,7 @@ def exc_view(e, tmp):
         fn = getattr(e, "filename", None)
         return {"err": {
             "cls": type(e).__name__, "err_type": getattr(e, "err_type", None),
-            "file": None if fn is None else os.path.basename(str(fn)),
+            "file": rel_name(fn, tmp),
             "line": getattr(e, "line", None), "col": getattr(e, "col", None), "nchar": getattr(e, "nchar", None),
             "msg": norm_text(getattr(e, "message", e), tmp),
         }}
@@ -257,15 +296,17 @@ def dump_value(model, tmp):
         out["params"] = sorted((str(k), repr(v)[:40]) for k, v in getattr(params, "params", {}).items())
         out["used"] = sorted(str(k) for k in getattr(params, "used_keys", ()))
     fn = getattr(model, "_tx_filename", None)
-    out["file"] = None if fn is None else os.path.basename(fn)
+    out["file"] = rel_name(fn, tmp)
     repo = getattr(model, "_tx_model_repository", None)
     if repo is not None:
         others = []
         for f in sorted(repo.all_models.filename_to_model):
             m = repo.all_models.filename_to_model[f]
             if m is not model and is_obj(m):
-                others.append([os.path.basename(f), obj(m)])
+                others.append([rel_name(f, tmp), obj(m)])
         out["imported"] = others
+        # the files of the load in the order they were parsed (main model first)
+        out["order"] = [rel_name(f, tmp) for f in repo.all_models.filename_to_model]
     if hasattr(model, "_pos_crossref_list"):
         out["tools"] = [len(model._pos_crossref_list), len(model._pos_rule_dict),
                         [[r.name, r.ref_pos_start, r.def_pos_start] for r in model._pos_crossref_list][:20]]
@@ -346,6 +387,60 @@ def is_tx_method(f):
     return "_replace_user_attr_methods_for_class" in getattr(f, "__qualname__", "")
 
 
+def _digest(x):
+    import hashlib
+
+    return hashlib.sha1(json.dumps(x, sort_keys=True, default=str).encode()).hexdigest()[:12]
+
+
+def mm_fingerprint(mm):
+    """What a metamodel *is* as far as loading is concerned: the options its parser runs with, the compiled
+    parser model (rule objects with their match strings / regular expressions incl. flags, structure,
+    modifiers) and the class table (rule types, attributes, inheritance, namespaces).  Object identities and
+    the `_tx_class` back-pointers of the shared base-type rules (history dependent by design, modelled as
+    `baseOwner`) are left out.  Compared between a metamodel inside a history and the same configuration
+    created alone on a fresh state."""
+    b = mm._parser_blueprint
+    flags = {a: getattr(b, a, None) for a in ("memoization", "skipws", "ws", "autokwd", "ignore_case", "debug",
+                                              "reduce_tree")}
+    for a in ("memoization", "skipws", "ws", "autokwd", "ignore_case", "auto_init_attributes",
+              "textx_tools_support", "use_regexp_group"):
+        flags["mm." + a] = getattr(mm, a, None)
+    ids, rows, regex = {}, [], {}
+
+    def visit(e):
+        if id(e) in ids:
+            return ids[id(e)]
+        ids[id(e)] = i = len(ids)
+        row = [type(e).__name__, e.rule_name, bool(e.root), bool(getattr(e, "suppress", False))]
+        rows.append(row)
+        if hasattr(e, "to_match"):
+            row += [str(e.to_match), getattr(e, "ignore_case", None)]
+            rx = getattr(e, "regex", None)
+            if rx is not None and hasattr(rx, "pattern"):
+                row += [rx.pattern, int(rx.flags)]
+                if e.root:
+                    regex[str(e.rule_name)] = [rx.pattern, int(rx.flags)]
+        row.append([getattr(e, a, None) for a in ("ws", "skipws", "eolterm")])
+        row.append([visit(c) for c in (getattr(e, "nodes", None) or [])])
+        sep = getattr(e, "sep", None)
+        row.append(visit(sep) if sep is not None else None)
+        return i
+
+    tops = [visit(b.parser_model), visit(b.comments_model) if b.comments_model is not None else None]
+    classes = []
+    for ns in sorted(mm.namespaces, key=str):
+        for name in sorted(mm.namespaces[ns], key=str):
+            c = mm.namespaces[ns][name]
+            attrs = [[a.name, getattr(a.cls, "_tx_fqn", getattr(a.cls, "__name__", str(a.cls))), a.mult, bool(a.cont),
+                      bool(a.ref), bool(a.bool_assignment)] for a in getattr(c, "_tx_attrs", {}).values()]
+            classes.append([str(ns), str(name), getattr(c, "_tx_fqn", None), getattr(c, "_tx_type", None), attrs,
+                            [getattr(x, "_tx_fqn", str(x)) for x in getattr(c, "_tx_inh_by", [])]])
+    fp = {"flags": flags, "parser": _digest([tops, rows]), "classes": _digest(classes), "regex": regex}
+    fp["id"] = _digest(fp)
+    return fp
+
+
 def observe(world, last_clone=None, nm_pos=None):
     import textx.lang as L
 
@@ -384,6 +479,23 @@ def observe(world, last_clone=None, nm_pos=None):
         "gp": sorted([bool(k), bool(p.memoization)] for k, p in L.textX_parsers.items()),
         "base_owner": owner,
     }
+    # configuration of every existing metamodel (digest; spelled out whenever it changed)
+    fps, full = [], {}
+    for k, mm in enumerate(world.mms):
+        if mm is None:
+            fps.append(None)
+            continue
+        try:
+            fp = mm_fingerprint(mm)
+        except Exception as e:  # noqa: BLE001
+            fp = {"id": f"unreadable: {type(e).__name__}: {e}"[:120]}
+        fps.append(fp["id"])
+        if world.fp_seen.get(k) != fp["id"]:
+            world.fp_seen[k] = fp["id"]
+            full[str(k)] = fp
+    hid["fp"] = fps
+    if full:
+        hid["fp_full"] = full
     if last_clone is not None:
         mm = last_clone.metamodel
         b = mm._parser_blueprint
@@ -544,7 +656,7 @@ def lean_material(world, case, ops, clones, full):
                     if op[0] in ("str", "strp"):
                         add(op[1], op[2])
                     elif op[0] == "file":
-                        for fn in import_order(case["files"], op[2]):
+                        for fn in import_order(case["files"], op[2], world.cfgs[op[1]].get("search_path")):
                             if fn in case["files"]:
                                 add(op[1], case["files"][fn])
         pd, ids, objs = pool_dump(world, texts)
@@ -562,10 +674,19 @@ def lean_material(world, case, ops, clones, full):
 IMPORT_RE = re.compile(r"""\bimport\s+(["'])(.*?)\1""")
 
 
-def import_order(files, main):
+def import_order(files, main, search_path=None):
     """files in the order textX parses them: main, then imports depth first in textual order, each once;
-    a missing file ends the list (the load fails there)."""
+    a missing file ends the list (the load fails there).  An import is looked up in the directory of the
+    importing file, then in the directories of `search_path` (harness-side helper: it only selects the texts
+    whose token tables are sent to the Lean driver; the driver computes the order itself, `History.loadOrder`)."""
     order, seen = [], set()
+
+    def find(name, base):
+        for d in [base] + list(search_path or []):
+            fn = os.path.normpath(os.path.join(d, name)) if d else name
+            if fn in files:
+                return fn
+        return os.path.normpath(os.path.join(base, name)) if base else name
 
     def go(fn):
         if fn in seen:
@@ -575,7 +696,7 @@ def import_order(files, main):
         if fn not in files:
             return False
         for m in IMPORT_RE.finditer(files[fn]):
-            if not go(m.group(2)):
+            if not go(find(m.group(2), os.path.dirname(fn))):
                 return False
         return True
 
@@ -636,14 +757,18 @@ def install_code_cache():
     sys.meta_path.insert(0, MemoFinder())
 
 
-def _is_stdlib(mod):
-    import sysconfig
+_STD = []
 
+
+def _is_stdlib(mod):
     f = getattr(mod, "__file__", None)
     if f is None:
         return True  # builtin / frozen
-    std = sysconfig.get_paths()["stdlib"]
-    return f.startswith(std) and "site-packages" not in f
+    if not _STD:
+        import sysconfig
+
+        _STD.append(sysconfig.get_paths()["stdlib"])
+    return f.startswith(_STD[0]) and "site-packages" not in f
 
 
 def fresh_textx():
@@ -689,15 +814,19 @@ def _run_case(case, tmp, lean):
                 distinct.append(op)
 
     # --- r2: a fresh state in which only the metamodel of the load is created ----------------
-    # (pool metamodels: the first distinct load of each; metamodels created inside a history: every load)
-    r2, mm_solo = {}, {}
-    for k in sorted({op[1] for op in distinct}):
+    # (every distinct load of every metamodel; `solo_fp`: the configuration fingerprint of each metamodel
+    # created alone)
+    r2, mm_solo, solo_fp = {}, {}, {}
+    for k in sorted(set(range(npool)) | {op[1] for ops in case["histories"] for op in ops}):
         mine = [op for op in distinct if op[1] == k]
-        for op in (mine[:1] if k < npool else mine):
+        for op in (mine or [None]):
             w = fresh_world(case, tmp, [k])
             mm_solo[str(k)] = w.mm_errs[k]
-            r2[op_key(op)] = run_op(w, op)[0]
-    res["r2"], res["mm_solo"] = r2, mm_solo
+            if str(k) not in solo_fp and w.mms[k] is not None:
+                solo_fp[str(k)] = mm_fingerprint(w.mms[k])
+            if op is not None:
+                r2[op_key(op)] = run_op(w, op)[0]
+    res["r2"], res["mm_solo"], res["solo_fp"] = r2, mm_solo, solo_fp
 
     # --- r1: each load alone on the state "pool created, nothing loaded" ----------------------
     r1 = {}
